@@ -543,6 +543,17 @@ func (vc *VC) loopEnv(li *loopInfo, st *State, phiVal func(*ssa.Phi) Term) *Env 
 			}
 		}
 	}
+	// $visited: the keys already produced by the map iteration this loop drives
+	for _, in := range li.header.Instrs {
+		if nx, ok := in.(*ssa.Next); ok {
+			if rg, ok := nx.Iter.(*ssa.Range); ok {
+				if name, sortName, mt := vc.rangeVar(rg); mt != nil {
+					e.vars["$visited"] = Term{S: vc.get(st, name, sortName), Sort: sortName}
+					e.vars["$map"] = vc.vals[rg]
+				}
+			}
+		}
+	}
 	// other named locals visible at the header (defined outside the loop)
 	vc.bindDebugNames(e, li)
 	return e
